@@ -7,6 +7,10 @@ require (
 	golang.org/x/tools v0.38.0
 )
 
-require github.com/cloudflare/ahocorasick v0.0.0-20240916140611-054963ec9396 // indirect
+require (
+	github.com/cloudflare/ahocorasick v0.0.0-20240916140611-054963ec9396 // indirect
+	golang.org/x/mod v0.29.0 // indirect
+	golang.org/x/sync v0.17.0 // indirect
+)
 
 replace github.com/a14e/gogreement => /repo
